@@ -16,7 +16,8 @@ RULE = ("one run = a small-domain system with ordering directives (solve_order(a
         "thorough); each a value's count against 1/|A| by exact two-sided binomial tail, family-wise "
         "bound 1e-9 per invocation. The same system with the b-companion sets multiplied (metamorphic "
         "partner) is judged by the same bound. Non-trivial = frequency judged on a system whose "
-        "companion counts differ by >= 4x; distinct = (system shape, companion-size profile).")
+        "companion counts differ by >= 4x; distinct = (system shape, companion-size profile)."
+        " Further scenario kinds: several directives naming the same 'after' field (a and b judged, every (a,b) combination feasible) and a list as the 'after' operand.")
 REAL = ["pyvsc (all of src/vsc)", "PyBoolector", "Python random (RandState)"]
 STUB = ["user code (generated)", "stdout (sink)"]
 ASSUMPTIONS = ["uniformity is only claimed when a's feasible values fill its inferred range (no top-level "
